@@ -127,7 +127,7 @@ func r06_1(c *Ctx) {
 		return
 	}
 	for _, fn := range P.Funcs {
-		eachInstrDeep(fn, func(in ssa.Instruction) {
+		eachInstr(fn, func(in ssa.Instruction) {
 			cl, ok := isBuiltin(in, "close")
 			if !ok {
 				return
@@ -150,7 +150,7 @@ func r06_1(c *Ctx) {
 			// registered keys (P1/P3/call sites) need the delete of the same key in this function
 			if !isP2(why) {
 				hasDelete := false
-				eachInstrDeep(fn, func(d ssa.Instruction) {
+				eachInstr(fn, func(d ssa.Instruction) {
 					if dc, ok := isBuiltin(d, "delete"); ok {
 						a := dc.Common().Args
 						if isJoeField(a[0], "subscribers") && sameValue(a[1], x) {
@@ -196,7 +196,7 @@ func r06_2(c *Ctx) {
 		if !reach[fn] {
 			continue
 		}
-		eachInstrDeep(fn, func(in ssa.Instruction) {
+		eachInstr(fn, func(in ssa.Instruction) {
 			snd, ok := in.(*ssa.Send)
 			if !ok || !isSubscriberType(snd.Chan.Type()) {
 				return
@@ -315,7 +315,9 @@ func r06_4(c *Ctx) {
 		c.anchor("Subscribe's done channel")
 		return
 	}
-	isDone := func(v ssa.Value) bool { return stripConv(v) == ssa.Value(done) }
+	isDone := func(v ssa.Value) bool {
+		return stripConv(v) == ssa.Value(done) || carriesOnly(stripConv(v), done) || carriesOnlyConv(v, done)
+	}
 	var sels []*ssa.Select
 	eachInstrDeep(fn, func(in ssa.Instruction) {
 		if s, ok := in.(*ssa.Select); ok {
@@ -345,7 +347,7 @@ func r06_4(c *Ctx) {
 						}
 					}
 					if hasSub && doneIdx >= 0 {
-						if e, ok := selectArmEdge(sel, doneIdx); ok && edgeDominates(e.From, e.Idx, ret.Block()) {
+						if e, ok := selectArmEdge(sel, doneIdx); ok && (edgeDominates(e.From, e.Idx, ret.Block()) || factGuards(fn, ret.Block(), factEdges(e))) {
 							good = true
 						}
 					}
@@ -357,7 +359,7 @@ func r06_4(c *Ctx) {
 				for _, sel := range sels {
 					for k, st := range sel.States {
 						if st.Dir == types.SendOnly && isJoeField(st.Chan, "unsubscription") && isDone(st.Send) {
-							if e, ok := selectArmEdge(sel, k); ok && edgeDominates(e.From, e.Idx, ret.Block()) {
+							if e, ok := selectArmEdge(sel, k); ok && (edgeDominates(e.From, e.Idx, ret.Block()) || factGuards(fn, ret.Block(), factEdges(e))) {
 								good = true
 							}
 						}
@@ -420,6 +422,40 @@ func r06_4(c *Ctx) {
 		c.check(has, fnLabel(fn)+":post-registration-select", P.ipos(sel), "select after registration receives from its own done channel",
 			"a select after registration does not receive from the done channel: the subscriber's own error (or shutdown) cannot end Subscribe")
 	}
+	// a subscriber's writer is called only by the fan-out of the message arm (and by the replayer during
+	// Subscribe's replay): a Send or Flush from any other place of Joe's code - a removal helper, the
+	// shutdown path - can run after that Subscribe call has returned
+	{
+		lp := findLoop(P)
+		allowed := map[ssa.Instruction]bool{}
+		for _, sn := range lp.sends {
+			if lp.jp.inArm("message", sn.Block()) {
+				allowed[sn] = true
+			}
+		}
+		for _, fl := range lp.flushes {
+			if lp.jp.inArm("message", fl.Block()) {
+				allowed[fl] = true
+			}
+		}
+		n := 0
+		for _, f := range P.Funcs {
+			if !isJoeCode(P, f) {
+				continue
+			}
+			eachInstr(f, func(in ssa.Instruction) {
+				for _, m := range []string{"Send", "Flush"} {
+					if ci, ok := isInvoke(in, "sse", "MessageWriter", m); ok && !allowed[ci] {
+						n++
+						c.bad(fnLabel(f)+":writer-call-outside-fan-out", P.ipos(in), "a subscriber's "+m+" is called outside the message arm's fan-out: this call can happen after the subscriber's Subscribe has returned (cancellation hand-off, failure already reported)")
+					}
+				}
+			})
+		}
+		if n == 0 {
+			c.ok("joe:writer-call-sites", "-", "MessageWriter methods are called only in the fan-out of the message arm")
+		}
+	}
 }
 
 func isGlobalLoad(v ssa.Value, name string) bool {
@@ -451,7 +487,7 @@ func r06_5(c *Ctx) {
 		if !isJoeCode(P, fn) {
 			continue
 		}
-		eachInstrDeep(fn, func(in ssa.Instruction) {
+		eachInstr(fn, func(in ssa.Instruction) {
 			switch x := in.(type) {
 			case *ssa.Go:
 				n++
